@@ -286,12 +286,18 @@ def r09_4(run, model):
                        f"{ename}::{v} => {S.norm_ws(run.facts.text(DCE, b['sp']))[:60]}",
                        witness={"Index": "`let _ = array_get(a, 10);` on a 3-element array: the out-of-range failure disappears"}.get(v, f"a dead `{v}` is removed together with its effect"))
         if ename == "Expr" and "BinaryOp" in covered:
-            for arm in covered["BinaryOp"]:
-                txt = S.norm_ws(run.facts.text(DCE, arm["sp"]))
-                ok = re.search(r"\b(Div|Rem|Mod|Quo)\b", txt) is not None or (arm["body"]["k"] == "Lit" and arm["body"].get("value") == "true")
-                run.ob("R09.4", f"{fn_.name}|dividing BinaryOp is an effect", ok, site(DCE, arm["sp"]),
-                       "BinaryOp is pure whenever its operands are; integer division by zero fails at run time in Go" if not ok else "division is treated as effectful",
-                       witness="`let _ = a / zero;` no longer fails at run time")
+            arms_b = covered["BinaryOp"]
+            def _div_true(arm):
+                pt_ = S.norm_ws(run.facts.text(DCE, arm["pat"]["sp"]))
+                is_true = arm["body"]["k"] == "Lit" and arm["body"].get("value") == "true"
+                body_div = re.search(r"\b(Div|Rem|Mod|Quo)\b", S.norm_ws(run.facts.text(DCE, arm["body"]["sp"]))) is not None
+                return (is_true and (re.search(r"\b(Div|Rem|Mod|Quo)\b", pt_) is not None or "op" not in pt_)) or body_div
+            # arms are tried in order: the first arm that can match a division must answer true for it
+            first = arms_b[0]
+            ok = _div_true(first)
+            run.ob("R09.4", f"{fn_.name}|dividing BinaryOp is an effect", ok, site(DCE, first["sp"]),
+                   "BinaryOp is pure whenever its operands are; integer division by zero fails at run time in Go" if not ok else "division is treated as effectful",
+                   witness="`let _ = a / zero;` no longer fails at run time")
     # removal sites re-emit effectful initialisers
     d = model.fn("dce_block_with_live", DCE)
     uses = [c for c in S.calls(d.body, "expr_has_side_effects")]
@@ -344,8 +350,45 @@ def r09_6(run, model):
                f"{form}: {'compiled into a statement' if emits else 'no statement emitted'}")
 
 
+def r09_8(run, model):
+    run.rule("R09.8", "lowering to Core never selects a component of an unevaluated aggregate: an arm of compile_expr that inspects the "
+                      "*constructor* of a child (`if let ETuple/EArray/EConstr { items, .. } = child`) does not pick one element by index "
+                      "(`.get(i)`, `[i]`, `.nth(i)`) and return its lowering - the sibling elements and their effects would never run")
+    CM = "crates/compiler/src/compile_match.rs"
+    f = model.fn("compile_expr", CM)
+    n = 0
+    for m in S.find(f.body, "Match"):
+        for arm in m["arms"]:
+            n += 1
+            picks = []
+            for x in S.walk(arm["body"]):
+                if x["k"] == "Let" or (x["k"] == "Local" and x.get("else") is not None) or x["k"] == "Match":
+                    pt = x.get("pat")
+                    if pt is None:
+                        continue
+                    ptxt = S.norm_ws(run.facts.text(CM, pt["sp"]))
+                    if re.match(r"(tast::Expr::)?(ETuple|EArray|EConstr)\{", ptxt):
+                        coll = set(S.pat_bindings(pt))
+                        for y in S.walk(arm["body"]):
+                            if y["k"] == "MethodCall" and y["method"] in ("get", "nth", "swap_remove", "remove", "first", "last") and (S.idents(y["recv"]) & coll):
+                                picks.append(f"{y['method']} on {sorted(S.idents(y['recv']) & coll)[0]}")
+                            if y["k"] == "Index" and (S.idents(y["base"]) & coll):
+                                picks.append("index")
+            if picks:
+                vt = S.norm_ws(run.facts.text(CM, arm["pat"]["sp"]))[:30]
+                run.ob("R09.8", f"compile_expr|{vt} lowers its children whole", False, site(CM, arm["sp"]),
+                       f"selects one element of a literal child: {sorted(set(picks))}",
+                       witness="(a0(), a1()).0 lowers to a0() only: a1() is never called")
+        break
+    run.ob("R09.8", "compile_expr|no element selection from literal children", True, site(CM, f.node["sp"]), f"{n} arms inspected")
+    run.floor("arms of compile_expr", n, 15)
+
+
 def run(run, model):
+    run.try_rule(r09_8, model)
     run.try_rule(r09_6, model)
+    from rules import c01
+    run.try_rule(c01.r01_5, model)
     run.try_rule(r09_1, model)
     run.try_rule(r09_2, model)
     run.try_rule(r09_3, model)
